@@ -17,6 +17,8 @@ N6  a conditional expression that is the whole value of an assignment to a plain
     `return A if c else B` -> `if c: return A` followed by `return B` (so the CFG carries the guard).
 N9  guard-clause form: when an `if` branch and the statements after it both always leave (return / raise), the
     shorter alternative is the guarded branch, ties go to the un-negated test (`if ok: <long>; return x` / `raise E` == `if not ok: raise E` / <long>).
+N10 expression-like helpers (a private module-level `_helper` or a nested function whose body is only let-bindings and a
+    decision of `return`s) are expanded at their call sites in the same module; the definition stays.
 N8  keyword arguments of a call are ordered by name (no `**` splat present): evaluation order of pure
     argument expressions is irrelevant to every rule.
 
@@ -286,10 +288,221 @@ def normalize_tree(tree: ast.Module) -> int:
     """In-place normalisation of every function of the module; returns the number of rewrites."""
     n = 0
     funcs = [x for x in ast.walk(tree) if isinstance(x, (ast.FunctionDef, ast.AsyncFunctionDef))]
-    for fn in reversed(funcs):
-        for _ in range(4):
-            k = _normalize_function(fn) + _structural(fn)
-            n += k
-            if not k:
-                break
+    def settle():
+        m = 0
+        for fn in reversed(funcs):
+            for _ in range(4):
+                k = _normalize_function(fn) + _structural(fn)
+                m += k
+                if not k:
+                    break
+        return m
+
+    n += settle()
+    k = inline_helpers(tree)
+    if k:
+        n += k + settle()
     return n
+
+
+# ---- N10: expression-like private helpers are expanded at their call sites -------------------------------------------
+class _NotExpr(Exception):
+    pass
+
+
+def _helper_expr(fn):
+    """The value of a call to `fn` as one expression over its parameters, when the body is nothing but let-bindings and a
+    decision of returns (`if c: return A` ... `return Z`); raises _NotExpr otherwise."""
+    a = fn.args
+    if a.vararg or a.kwarg or a.posonlyargs or fn.decorator_list and not all(isinstance(d, ast.Name) and d.id == "staticmethod" for d in fn.decorator_list):
+        raise _NotExpr
+    if isinstance(fn, ast.AsyncFunctionDef):
+        raise _NotExpr
+    params = [x.arg for x in a.args + a.kwonlyargs]
+    lets = {}
+
+    def subst_lets(e):
+        class T(ast.NodeTransformer):
+            def visit_Name(self, n):
+                if isinstance(n.ctx, ast.Load) and n.id in lets:
+                    return _clone(lets[n.id])
+                return n
+        return T().visit(_clone(e))
+
+    def block(stmts):
+        """expression for a statement list that always returns"""
+        stmts = [s for s in stmts if not (isinstance(s, ast.Expr) and isinstance(s.value, ast.Constant))]
+        if not stmts:
+            raise _NotExpr
+        s, rest = stmts[0], stmts[1:]
+        if isinstance(s, ast.Return):
+            if s.value is None:
+                return ast.Constant(value=None)
+            return subst_lets(s.value)
+        if isinstance(s, ast.Assign) and len(s.targets) == 1 and isinstance(s.targets[0], ast.Name):
+            name = s.targets[0].id
+            if name in lets or name in params:
+                raise _NotExpr
+            lets[name] = subst_lets(s.value)
+            try:
+                return block(rest)
+            finally:
+                pass
+        if isinstance(s, ast.If):
+            test = subst_lets(s.test)
+            if s.orelse:
+                return ast.IfExp(test=test, body=block(s.body), orelse=block(s.orelse)) if not rest else _raise()
+            return ast.IfExp(test=test, body=block(s.body), orelse=block(rest))
+        raise _NotExpr
+
+    def _raise():
+        raise _NotExpr
+
+    for n in ast.walk(fn):
+        if isinstance(n, (ast.Yield, ast.YieldFrom, ast.Await, ast.Global, ast.Nonlocal, ast.Lambda)) or \
+                (isinstance(n, (ast.FunctionDef, ast.AsyncFunctionDef, ast.ClassDef)) and n is not fn):
+            raise _NotExpr
+        if isinstance(n, ast.Call) and isinstance(n.func, ast.Name) and n.func.id == fn.name:
+            raise _NotExpr  # recursive
+    expr = block(fn.body)
+    if sum(1 for _ in ast.walk(expr)) > 220:
+        raise _NotExpr
+    return params, expr
+
+
+def _clone(node):
+    if isinstance(node, ast.AST):
+        new = node.__class__()
+        for name, value in ast.iter_fields(node):
+            setattr(new, name, _clone(value))
+        for attr in ("lineno", "col_offset", "end_lineno", "end_col_offset"):
+            if hasattr(node, attr):
+                setattr(new, attr, getattr(node, attr))
+        return new
+    if isinstance(node, list):
+        return [_clone(x) for x in node]
+    return node
+
+
+def _bind(fn, call):
+    a = fn.args
+    names = [x.arg for x in a.args]
+    bound = {}
+    if any(isinstance(x, ast.Starred) for x in call.args) or any(k.arg is None for k in call.keywords):
+        return None
+    if len(call.args) > len(names):
+        return None
+    for n, v in zip(names, call.args):
+        bound[n] = v
+    allowed = set(names) | {x.arg for x in a.kwonlyargs}
+    for k in call.keywords:
+        if k.arg not in allowed or k.arg in bound:
+            return None
+        bound[k.arg] = k.value
+    defaults = dict(zip(names[len(names) - len(a.defaults):], a.defaults))
+    defaults.update({x.arg: d for x, d in zip(a.kwonlyargs, a.kw_defaults) if d is not None})
+    for n in allowed:
+        if n not in bound:
+            if n in defaults:
+                bound[n] = defaults[n]
+            else:
+                return None
+    return bound
+
+
+def inline_helpers(tree: ast.Module) -> int:
+    """N10.  Private module-level helpers (`_name`) and nested functions whose body is expression-like are expanded at
+    their call sites inside the same module (the definition stays).  Extracting a decision or a small builder into a
+    helper - or inlining one - therefore leaves the analysed program unchanged."""
+    cands = {}
+
+    def collect(scope_node, owner):
+        for s in getattr(scope_node, "body", []):
+            if isinstance(s, ast.FunctionDef):
+                if owner is not None or s.name.startswith("_") and not s.name.startswith("__"):
+                    try:
+                        cands[(id(owner) if owner is not None else None, s.name)] = (s,) + _helper_expr(s)
+                    except _NotExpr:
+                        pass
+                collect(s, s)
+            elif isinstance(s, ast.ClassDef):
+                for m in s.body:
+                    if isinstance(m, (ast.FunctionDef, ast.AsyncFunctionDef)):
+                        collect(m, m)
+            elif isinstance(s, (ast.If, ast.Try, ast.With, ast.For, ast.While)):
+                for fld in ("body", "orelse", "finalbody"):
+                    sub = getattr(s, fld, None)
+                    if sub:
+                        collect(ast.Module(body=sub, type_ignores=[]), owner)
+                for h in getattr(s, "handlers", []) or []:
+                    collect(h, owner)
+
+    collect(tree, None)
+    if not cands:
+        return 0
+    count = 0
+
+    def rewrite(scope_fn, owners):
+        nonlocal count
+
+        class T(ast.NodeTransformer):
+            def visit_FunctionDef(self, node):
+                if node is scope_fn:
+                    self.generic_visit(node)
+                return node
+
+            visit_AsyncFunctionDef = visit_FunctionDef
+
+            def visit_Lambda(self, node):
+                return node
+
+            def visit_Call(self, node):
+                nonlocal count
+                self.generic_visit(node)
+                if not isinstance(node.func, ast.Name):
+                    return node
+                hit = None
+                for o in owners + [None]:
+                    hit = cands.get((id(o) if o is not None else None, node.func.id))
+                    if hit:
+                        break
+                if not hit or hit[0] is scope_fn:
+                    return node
+                fn, params, expr = hit
+                bound = _bind(fn, node)
+                if bound is None:
+                    return node
+
+                class S(ast.NodeTransformer):
+                    def visit_Name(self, n):
+                        if isinstance(n.ctx, ast.Load) and n.id in bound:
+                            return _clone(bound[n.id])
+                        return n
+
+                new = S().visit(_clone(expr))
+                ast.copy_location(new, node)
+                for x in ast.walk(new):
+                    if not hasattr(x, "lineno"):
+                        ast.copy_location(x, node)
+                count += 1
+                return new
+
+        T().visit(scope_fn)
+
+    def walk_scopes(node, owners):
+        for s in getattr(node, "body", []):
+            if isinstance(s, (ast.FunctionDef, ast.AsyncFunctionDef)):
+                rewrite(s, owners + [s])
+                walk_scopes(s, owners + [s])
+            elif isinstance(s, ast.ClassDef):
+                walk_scopes(s, owners)
+            elif isinstance(s, (ast.If, ast.Try, ast.With, ast.For, ast.While)):
+                for fld in ("body", "orelse", "finalbody"):
+                    sub = getattr(s, fld, None)
+                    if sub:
+                        walk_scopes(ast.Module(body=sub, type_ignores=[]), owners)
+                for h in getattr(s, "handlers", []) or []:
+                    walk_scopes(h, owners)
+
+    walk_scopes(tree, [])
+    return count
